@@ -151,6 +151,14 @@ def _expand_chunk(hists):
     return out, viols, ntrans, samples
 
 
+def _expand_guarded(hists):
+    from .engine_enum import guarded
+    r = guarded(_expand_chunk, hists)
+    if r[0] == 'hang':
+        return ('hang', r[1], r[2], [list(h) for h in hists[:3]])
+    return r[1]
+
+
 class Search:
     """Generic BFS over the implementation, level by level; the expansion of
     a level is distributed over a fork pool.
@@ -202,14 +210,33 @@ class Search:
             depth = 0
             while frontier:
                 self.levels.append(len(frontier))
-                if pool is not None and len(frontier) >= 2 * procs:
+                if pool is not None:
                     n = max(1, len(frontier) // (procs * 4))
                     chunks = [frontier[i:i + n]
                               for i in range(0, len(frontier), n)]
-                    results = pool.map(_expand_chunk, chunks)
+                    results = pool.map(_expand_guarded, chunks)
                 else:
                     results = [_expand_chunk(frontier)]
                 nxt = []
+                hung = [r for r in results if r and r[0] == 'hang']
+                for _, tb, in_impl, hs in hung:
+                    where = [ln.strip() for ln in tb.splitlines()
+                             if ln.strip().startswith('File ')
+                             and 'in on_alarm' not in ln][-3:]
+                    if in_impl:
+                        violation('call-never-returned',
+                                  f'expanding the histories starting at {hs}: '
+                                  f'a call into the implementation did not '
+                                  f'return; innermost frames: {where}',
+                                  {'kind': 'hang', 'histories': hs})
+                    else:
+                        print(f'HARNESS-ERROR: BFS expansion exceeded its '
+                              f'time limit inside the harness: {where}',
+                              flush=True)
+                        self.capped = True
+                results = [r for r in results if not (r and r[0] == 'hang')]
+                if hung:
+                    frontier = []
                 for out, viols, ntrans, samples in results:
                     self.transitions += ntrans
                     for key, what, case in viols:
